@@ -458,7 +458,7 @@ def run_stream(stream, seed, n, oracle_fns, shards=None, prep=None):
             rest = o.split("\t", 1)[1] if "\t" in o else ""
             olines.append("o." + fn + "\t" + rest + "\t" + impl[k])
             oidx.append((k, "impl"))
-            if model[k] != impl[k] and model[k] != "unmodelled":
+            if model[k] != impl[k] and model[k] != "unmodelled" and fn not in getattr(PROPS, "FIRST_WORD_FNS", ()):
                 olines.append("o." + fn + "\t" + rest + "\t" + model[k])
                 oidx.append((k, "model"))
     overd = sharded([DRIVER], olines, "MODEL-CRASH", shards=shards) if olines else []
@@ -487,9 +487,12 @@ def run_stream(stream, seed, n, oracle_fns, shards=None, prep=None):
             sr.fails.append((o, impl[k], model[k]))
         elif v == "bad-op":
             raise MachineryError("stream %s: oracle could not decode observation %r of op %r" % (stream, impl[k][:200], o[:300]))
+        impl_cmp = impl[k].split(" ", 1)[0] if fn in getattr(PROPS, "FIRST_WORD_FNS", ()) else impl[k]
+        if fn in getattr(PROPS, "FIRST_WORD_FNS", ()):
+            sr.dist[fn + ":" + impl[k][:40]] = sr.dist.get(fn + ":" + impl[k][:40], 0) + 1
         if model[k] == "unmodelled":
             sr.drift += 1          # outside the modelled class: the oracle still judged the implementation above
-        elif impl[k] != model[k]:
+        elif impl_cmp != model[k]:
             if v == "unspec" and verd.get((k, "model")) == "unspec":
                 sr.drift += 1
             else:
